@@ -7,7 +7,8 @@
 namespace ops {
 
 inline const char* const kOptimFn[] = {"align1_default", "align2_static", "align1_numerical_cb_disney", "curvefit_dynamic",
-                                       "analytic_sparse3", "align2_dynamic_ret", "rosenbrock_rejected_steps", "stiff_group_small_radius"};
+                                       "analytic_sparse3", "align2_dynamic_ret", "rosenbrock_rejected_steps", "stiff_group_small_radius",
+                                       "reentrant_residual", "reentrant_callback"};
 constexpr int kOptimNFn = sizeof(kOptimFn) / sizeof(kOptimFn[0]);
 
 struct CurveData {
@@ -214,6 +215,67 @@ struct OptimOps {
           },
           smooth::wrt(x), [outp](const auto& xi) { put_elem(*outp, xi); }, opts);
         put_elem(out, x);
+        put_result(out, r);
+        break;
+      }
+      case 8: {
+        // RE-ENTRANCY: the residual of a (dynamically sized) solve runs a complete solve of its own
+        const CurveData& cd = *st->cd;
+        Eigen::VectorXd x(2);
+        x << 0.8, -0.2;
+        opts.max_iter = 8;
+        const auto r = smooth::minimize(
+          [&cd, opp](const auto& v) -> Eigen::VectorXd {
+            h::cb_tick(*opp);
+            // inner problem: scale s minimising || s * exp(v1 t) - y ||
+            Eigen::VectorXd sc(1);
+            sc << 1.0;
+            smooth::MinimizeOptions iopts;
+            iopts.max_iter = 4;
+            const double v1 = v(1);
+            smooth::minimize(
+              [&cd, v1](const auto& s) -> Eigen::VectorXd {
+                Eigen::VectorXd res(cd.ts.size());
+                for (size_t i = 0; i < cd.ts.size(); ++i) res((Eigen::Index)i) = s(0) * std::exp(v1 * cd.ts[i]) - cd.ys[i];
+                return res;
+              },
+              smooth::wrt(sc), iopts);
+            Eigen::VectorXd res(cd.ts.size() + 1);
+            for (size_t i = 0; i < cd.ts.size(); ++i) res((Eigen::Index)i) = v(0) * std::exp(v(1) * cd.ts[i]) - cd.ys[i];
+            res((Eigen::Index)cd.ts.size()) = 0.1 * (v(0) - sc(0));
+            return res;
+          },
+          smooth::wrt(x), opts);
+        put_mat(out, x);
+        put_result(out, r);
+        break;
+      }
+      case 9: {
+        // RE-ENTRANCY through the per-iteration callback: it runs another solve and records its result
+        const CurveData& cd = *st->cd;
+        Eigen::VectorXd x(2);
+        x << 1.1, -0.05;
+        Out* outp = &out;
+        opts.max_iter = 8;
+        const auto r = smooth::minimize<Type::Default>(
+          [&cd, opp](const auto& v) -> Eigen::VectorXd {
+            h::cb_tick(*opp);
+            Eigen::VectorXd res(cd.ts.size());
+            for (size_t i = 0; i < cd.ts.size(); ++i) res((Eigen::Index)i) = v(0) * std::exp(v(1) * cd.ts[i]) - cd.ys[i];
+            return res;
+          },
+          smooth::wrt(x),
+          [&a, &b, outp](const auto& xi) {
+            put_mat(*outp, xi);
+            G y = a;
+            smooth::MinimizeOptions iopts;
+            iopts.max_iter = 3;
+            const G ref = b;
+            smooth::minimize([&ref](const auto& w) -> Eigen::VectorXd { return smooth::rminus(w, ref) * (1.0 + 0.0); }, smooth::wrt(y), iopts);
+            put_elem(*outp, y);
+          },
+          opts);
+        put_mat(out, x);
         put_result(out, r);
         break;
       }
